@@ -59,7 +59,8 @@ def run_case(case):
 
     try:
         # plain names only: the rule grammar addresses files by substring
-        for cmdname in ("sync", "scrub"):
+        for phase in ("sync", "scrub", "scrub-unsynced"):
+            cmdname = "scrub" if phase.startswith("scrub") else "sync"
             if cmdname == "sync":
                 scen.mutate(fs, rng, rng.randint(4, 8), hostile=0.0, ops=["create", "create", "overwrite", "append", "delete"], maxblocks=4)
                 base_args = ["-E", "-Z"]
@@ -69,6 +70,24 @@ def run_case(case):
                 if r.rc != 0:
                     raise scen.CaseError("setup sync failed")
                 base_args = ["-p", "full"]
+                if phase == "scrub-unsynced":
+                    # a file changed since the last sync: its stripes give generic (non silent) errors; an I/O error in
+                    # one of those stripes must still get the stripe marked bad
+                    cu = a.load_content()
+                    cand = [f for f in cu.files if f.size > 0 and all(ch not in f.sub for ch in b":;\n")]
+                    if cand:
+                        g = rng.choice(cand)
+                        gd = a.disk_names.index(cu.disk_name(g.disk).decode())
+                        gp = os.path.join(os.fsencode(a.ddir(gd)), g.sub)
+                        try:
+                            st_ = os.lstat(gp)
+                            with open(gp, "r+b") as fh:
+                                old_ = fh.read()
+                                fh.seek(0)
+                                fh.write(bytes((b ^ 0x3C) for b in old_))
+                            os.utime(gp, ns=(st_.st_atime_ns, st_.st_mtime_ns + 9_000_000_000))
+                        except OSError:
+                            pass
             if tpl:
                 tpl.cleanup()
             tpl = Template(a)
@@ -76,7 +95,7 @@ def run_case(case):
                 args = list(base_args) + (["--test-io-cache", ioc] if ioc else [])
                 tpl.restore()
                 rt = a.cmd(cmdname, *args, variant=variant, shim={})
-                if rt.rc != 0:
+                if rt.rc != 0 and phase != "scrub-unsynced":
                     raise scen.CaseError("twin %s failed: %s" % (cmdname, rt.err[-200:]))
                 evs = shimlog.parse(rt.events)
                 ctwin = a.load_content()
